@@ -38,5 +38,24 @@ for t in sorted(kf["fixed"], key=lambda t: t.split()[1]):
     if m:
         frows.append("| %s | %s | fixed %s | %s | |" % (m.group(3) or "-", m.group(1), m.group(2), one(m.group(4))))
 inject("findings-table", "\n".join(frows) + "\n")
+# every commit made in /repo since the pinned snapshot (hooks and fix: commits), with the finding it repairs
+import subprocess
+try:
+    log = subprocess.check_output(["git", "-C", "/repo", "log", "--reverse", "--format=%h\t%s", "9e9b5aa..HEAD"], text=True).splitlines()
+except Exception:
+    log = []
+byc = {}
+for t in kf["fixed"]:
+    m = re.match(r"fixed: property=(\S+) (\S+) (F-\S+)?", t)
+    if m:
+        byc.setdefault(m.group(2), []).append((m.group(1), m.group(3) or ""))
+crow = ["| commit | kind | property / finding | subject |", "|---|---|---|---|"]
+for l in log:
+    h, subj = l.split("\t", 1)
+    kind = "hook" if subj.startswith("verif hook") else ("fix" if subj.startswith("fix:") else "other")
+    who = ", ".join(sorted({(f or p_) for p_, f in byc.get(h, [])}))
+    crow.append("| %s | %s | %s | %s |" % (h, kind, who, subj.replace("|", "/")))
+if log:
+    inject("repo-commits", "\n".join(crow) + "\n")
 open(p, "w").write(s)
 print("DESIGN.md updated")
